@@ -1,6 +1,8 @@
 import MdkVerif.Model.Client
 import MdkVerif.Proofs.Client
 import MdkVerif.Proofs.Fork
+import MdkVerif.Proofs.ForkInv
+import MdkVerif.Props.C08
 /-
   C01 — the general single-fork theorem (DESIGN §6 C01 `single_fork`).
 
@@ -332,5 +334,55 @@ example : ([own1, cC, own1, cB].foldl (fun c e => (deliver c e 0).1) comS).g.pat
     ([cC, own1].foldl (fun c e => (deliver c e 0).1) comS).g.path = [3] ∧
     ([own1, own1].foldl (fun c e => (deliver c e 0).1) comS).g.path = [1] ∧
     ([own1, cC, own1, cB].foldl (fun c e => (deliver c e 0).1) comS).g.pending = none := by decide
+
+/-! ### the state hypotheses are invariants (DESIGN `secrets_follow_path`)
+
+  `SecretsOK` and `NoForkSnapshot` hold of every client state reachable from a fresh group by ANY
+  sequence of API calls — deliveries with all their branches incl. rollback and re-processing,
+  create_message, commit staging, leave, merge / clear pending commit, restart (`Proofs/ForkInv.lean`:
+  `HInv`, which also covers every state saved in a snapshot and the ordering of the snapshot queue). -/
+
+theorem reachable_hinv (id : Nat) (p : Bool) (r : Nat) (ms as : List Nat) (name : Nat) (ops : List C08.COp) :
+    HInv (ops.foldl C08.cstep (initCl id p r ms as name)) := by
+  have : ∀ (ops : List C08.COp) (c : Cl), HInv c → HInv (ops.foldl C08.cstep c) := by
+    intro ops
+    induction ops with
+    | nil => intro c h; exact h
+    | cons o os ih =>
+      intro c h
+      apply ih
+      cases o with
+      | deliver e nx => exact hinv_deliverN 3 nx c e h
+      | send n ts idn mid mts tok => exact hinv_send c n ts idn mid mts tok h
+      | stage n ts idn b na => exact hinv_stageCommit c n ts idn b na h
+      | leave n ts idn => exact hinv_leave c n ts idn h
+      | merge => exact hinv_merge c h
+      | clear => exact hinv_clear c h
+      | restart => exact hinv_restart c h
+  exact this ops _ (hinv_init id p r ms as name)
+
+/-- **secrets_follow_path**: after every history, every stored exporter secret (current state and every
+    snapshot) is the secret of a prefix of that state's path under its epoch number, and no snapshot
+    of the current epoch exists -/
+theorem secrets_follow_path (id : Nat) (p : Bool) (r : Nat) (ms as : List Nat) (name : Nat) (ops : List C08.COp) :
+    SecretsOK (ops.foldl C08.cstep (initCl id p r ms as name)).g ∧
+    NoForkSnapshot (ops.foldl C08.cstep (initCl id p r ms as name)) ∧
+    ∀ s ∈ (ops.foldl C08.cstep (initCl id p r ms as name)).mgr, SecretsOK s.saved := by
+  have h := reachable_hinv id p r ms as name ops
+  exact ⟨h.sec, fun s hs => Nat.ne_of_lt (h.below s hs), fun s hs => (h.saved s hs).1⟩
+
+/-- hence the bystander theorem for every REACHABLE client state: only the group's presence, the
+    retention value and the sibling conditions remain as hypotheses -/
+theorem single_fork_reachable (id : Nat) (p : Bool) (r : Nat) (ms as : List Nat) (name : Nat) (ops : List C08.COp)
+    (S l : List Ev) (nx : Nat)
+    (hg : (ops.foldl C08.cstep (initCl id p r ms as name)).hasGroup = true)
+    (hr : 1 ≤ (ops.foldl C08.cstep (initCl id p r ms as name)).retention)
+    (hS : Siblings (ops.foldl C08.cstep (initCl id p r ms as name)) S) (hl : ∀ e ∈ l, e ∈ S) (hne : l ≠ []) :
+    ∃ w ∈ l, (∀ e ∈ l, e = w ∨ klt (key w) (key e) = true) ∧
+      (l.foldl (fun c e => (deliver c e nx).1) (ops.foldl C08.cstep (initCl id p r ms as name))).g.path =
+        (ops.foldl C08.cstep (initCl id p r ms as name)).g.path ++ [w.n] := by
+  obtain ⟨h1, h2, _⟩ := secrets_follow_path id p r ms as name ops
+  obtain ⟨w, hw, hmin, hp, _⟩ := single_fork_bystander _ S l nx hg hr h1 h2 hS hl hne
+  exact ⟨w, hw, hmin, hp⟩
 
 end MdkVerif.Props.C01Fork
